@@ -30,6 +30,29 @@ def rule_n0(chk: Check, ix: Index):
     for q, f in sorted(ix.funcs.items()):
         if f.node.name == "__init__":
             continue
+        # local aliases of state containers: `lines = self._x` followed by `lines[k] = v` / `lines.append(v)`
+        aliases: dict[str, ast.Attribute] = {}
+        for n in own_nodes(f.node):
+            if isinstance(n, ast.Assign) and len(n.targets) == 1 and isinstance(n.targets[0], ast.Name) \
+                    and isinstance(n.value, ast.Attribute) and norm_stmt(n.value.value) in ("self", "self._tokenizer", "state"):
+                aliases[n.targets[0].id] = n.value
+        alias_writes = []
+        for n in own_nodes(f.node):
+            if isinstance(n, (ast.Assign, ast.AugAssign)):
+                for t in (n.targets if isinstance(n, ast.Assign) else [n.target]):
+                    if isinstance(t, ast.Subscript) and isinstance(t.value, ast.Name) and t.value.id in aliases:
+                        alias_writes.append((n, aliases[t.value.id]))
+            if isinstance(n, ast.Call) and isinstance(n.func, ast.Attribute) and isinstance(n.func.value, ast.Name) \
+                    and n.func.value.id in aliases and n.func.attr in ("append", "add", "update", "pop", "clear", "setdefault", "extend", "insert", "remove"):
+                alias_writes.append((n, aliases[n.func.value.id]))
+        for n, attr in alias_writes:
+            holder = norm_stmt(attr.value)
+            owner = f.cls if holder == "self" else ("Tokenizer" if holder == "self._tokenizer" else "TokenizerState")
+            chk.count("N0-state-inventory")
+            kind = CLASSIFIED.get((owner, attr.attr))
+            chk.require(kind is not None, "N0-state-inventory", f"{q}:{owner}.{attr.attr}(alias)", f"{f.rel}:{n.lineno}",
+                        f"`{norm_stmt(n)[:60]}` mutates `{owner}.{attr.attr}` through a local alias; that state is not position-keyed and has "
+                        f"no set/reset pairing, so it carries over from one statement (or macro) into the next")
         for n in own_nodes(f.node):
             tgts = n.targets if isinstance(n, ast.Assign) else ([n.target] if isinstance(n, (ast.AugAssign, ast.AnnAssign)) else [])
             flat = []
